@@ -10,7 +10,7 @@
 #include "ghost.h"
 int IN_flags, IN_format, IN_rank, IN_nprocs, IN_num_rec_vars; long long IN_numrecs, IN_new_numrecs;
 #include "sync_contracts.h"
-long long g_decoded_nbytes;
+long long g_decoded_nbytes; int g_decoded_contig;
 #include "getput_callees.h"
 int IN_rw, IN_coll, IN_contig; long long IN_count, IN_ibuf;
 static NC nc; static char dbuf[64];
